@@ -249,7 +249,7 @@ def check(repo):
     r2.require(started, lw, "receive loop started on connect", "load_websocket no longer starts the receive loop")
 
     # ---------------------------------------------------------------- R9.3
-    def message_fields(fi, sid_term):
+    def message_fields(fi, sid_term, type_param, content_param):
         """Keys of the dict that is pickled and sent, when it maps type/sid/content to the parameters and merges the extra fields."""
         qs = Q(repo, fi)
         for _c, _n, t in qs.calls():
@@ -259,17 +259,18 @@ def check(repo):
                     continue
                 pairs, extras = dp
                 keys = {k[1] for k in pairs if k[0] == "const"}
-                okv = pairs.get(("const", "type")) == ("param", "msg_type") and pairs.get(("const", "sid")) == sid_term and pairs.get(("const", "content")) == ("param", "content")
+                okv = pairs.get(("const", "type")) == ("param", type_param) and pairs.get(("const", "sid")) == sid_term and pairs.get(("const", "content")) == ("param", content_param)
                 kw = fi.node.args.kwarg.arg if fi.node.args.kwarg else None
                 merged = kw is not None and ("param", kw) in extras
                 sent = any(tt[0] == "mcall" and tt[2] == "send" and tt[3] == (t,) for _c2, _n2, tt in qs.calls())
                 return keys, okv and merged and sent
         return set(), False
     sm = cli.methods.get("_send_message")
-    ckeys, okc = message_fields(sm, ("attr", SELF, "sid"))
+    # roles by position (callers pass them positionally): _send_message(self, type, content, **extra) / send_message(websocket, sid, type, content, **extra)
+    ckeys, okc = message_fields(sm, ("attr", SELF, "sid"), sm.params[1], sm.params[2]) if len(sm.params) >= 3 else (set(), False)
     r3.require(ckeys == {"type", "sid", "content"} and okc, sm, "client message fields", "client _send_message writes %s (expected type/sid/content from its parameters plus the additional fields, pickled and sent)" % sorted(ckeys))
     ssm = repo.func(F.SRV_COMM, "send_message")
-    skeys, oks = message_fields(ssm, ("param", "sid"))
+    skeys, oks = message_fields(ssm, ("param", ssm.params[1]), ssm.params[2], ssm.params[3]) if len(ssm.params) >= 4 else (set(), False)
     r3.require(skeys == {"type", "sid", "content"} and oks, ssm, "server message fields", "server send_message writes %s (expected type/sid/content from its parameters plus the additional fields, pickled and sent)" % sorted(skeys))
     srm = srv.methods.get("_recv_message")
     qsr = Q(repo, srm)
@@ -436,9 +437,9 @@ def check(repo):
     se = repo.func(F.CLI_CMD, "search")
     qse = Q(repo, se)
     kwp = se.params[0] if se.params else "keyword"
-    KW = ("call", "bytes", (("param", "keyword"),), (("encoding", ("const", "utf-8")),))
-    KW2 = ("mcall", ("param", "keyword"), "encode", (("const", "utf-8"),), ())
-    KW3 = ("mcall", ("param", "keyword"), "encode", (), ())
+    KW = ("call", "bytes", (("param", kwp),), (("encoding", ("const", "utf-8")),))
+    KW2 = ("mcall", ("param", kwp), "encode", (("const", "utf-8"),), ())
+    KW3 = ("mcall", ("param", kwp), "encode", (), ())
     oks = any(t[0] == "mcall" and t[2] == "handle_keyword_search" and t[3][:1] and t[3][0] in (KW, KW2, KW3) for _c, _n, t in qse.calls())
     r6.require(oks, se, "search encodes the keyword as utf-8", "commands.search no longer encodes the keyword as utf-8 (the database converter's default) before handing it to the client service")
     Fse = facts_of(se)
